@@ -15,11 +15,15 @@ def gen_config(rng, thorough, cls=None):
     'empty' = no transactions at all"""
     count = rng.choice([1, 2, 3, 4, 4, 5, 6, 7, 7])
     watchers = rng.choice([0, 0, 1, 2, 3])
-    blocked = -1  # the property is about fault-free runs: nobody is blocked
+    blocked = -1  # by default nobody is blocked (class "blocked" sets one)
     txblock = rng.choice([0, 1, 1, 2, 3])
     txcount = rng.choice([2000, 2000, 100, 3, 1, 0])
     if cls == "drain":
         txblock, txcount = rng.choice([1, 2, 3]), rng.choice([1, 2, 3])
+    elif cls == "blocked":
+        # one validator whose payloads everybody drops: at the heights it is the speaker of, the others change view at once
+        count = rng.choice([4, 5, 6, 7])
+        blocked = rng.randrange(count)
     elif cls == "single":
         count = 1  # a lone validator decides inside Start()/OnTimeout(), never inside OnReceive()
     elif cls == "empty":
@@ -110,6 +114,8 @@ def main(prop, spec, argv, seed, chk):
                 runs[2] = gen_config(rng, tier == "thorough", "single")
             if n > 3:
                 runs[3] = gen_config(rng, tier == "thorough", "empty")
+            if n > 4:
+                runs[4] = gen_config(rng, tier == "thorough", "blocked")
         netns = subprocess.run(["unshare", "-n", "true"], stdout=subprocess.DEVNULL, stderr=subprocess.DEVNULL).returncode == 0
         results = []
         viols = []
